@@ -292,6 +292,11 @@ func (s *muxerStream) hasPart(segmentID uint64, partID uint64) bool {
 				return true
 			}
 		}
+
+		// the following Parent Segment can be the one that is being written
+		if segmentID == s.nextSegmentID {
+			return partID < uint64(len(s.nextSegment.(*muxerSegmentFMP4).parts))
+		}
 	}
 
 	return false
